@@ -125,7 +125,10 @@ void generatePlan(uint64_t seed, const GenOptions &opt, Plan &P)
         // paths inside one level, where saturation does its own fixed point)
         if (opt.prop == "C08" && R.chance(1, 2)) nv = 1 + int(R.below(2));
         const long cap = wantRel ? 24 : 96;
-        const int bigv = R.chance(1, 6) ? int(R.below(uint64_t(nv))) : -1;
+        int bigv = R.chance(1, 6) ? int(R.below(uint64_t(nv))) : -1;
+        // ... and a single variable is usually a wide one (a graph on 5..8
+        // states inside one node)
+        if (opt.prop == "C08" && nv == 1 && R.chance(2, 3)) bigv = 0;
         for (int v = 0; v < nv; v++) {
             int s = 2 + int(R.below(3));
             // one run in six has one wide variable (large nodes, long full
@@ -182,6 +185,8 @@ void generatePlan(uint64_t seed, const GenOptions &opt, Plan &P)
             if (!f.rel && f.kind == FK_MTI) f.red = 0;          // MT distances need a fully-reduced forest
             if (f.rel) f.red = R.chance(1, 2) ? 2 : int(R.below(3));   // saturation needs identity-reduced relations (KF-C08-2/3)
             else if (f.kind == FK_MTB) f.red = int(R.below(2));
+            if (i == 2) f.kind = FK_EVP;                        // when there is a third forest it carries EV+ distances
+            if (i == 2) { f.rel = 0; f.red = R.chance(2, 3) ? 0 : 1; }
         }
         f.storage = 1 + int(R.below(3));
         f.del = int(R.below(3));
